@@ -1,0 +1,88 @@
+//go:build verif
+
+// Contracts for package reader.
+package reader
+
+//@ interface Sniffer.SniffReader(s Sniffer, rs io.ReadSeeker)
+//@   assigns \nothing
+
+//@ interface Sniffer.SniffFile(s Sniffer, path string)
+//@   assigns \nothing
+
+//@ func Reader.ParseStreamWithOptions
+//@   props C04
+//@   requires r.Options != nil && r.sniffer != nil && f != nil
+//@   requires forall k formats.Format :: (k in unserializers) ==> unserializers[k] != nil
+//@   ensures [C04:parse:oneOf] (result1 == nil) != (result0 == nil)
+
+// registry invariant: registered drivers are non-nil (precondition of RegisterUnserializer)
+//@ func GetFormatUnserializer
+//@   props C04
+//@   requires forall f formats.Format :: (f in unserializers) ==> unserializers[f] != nil
+//@   ensures [C04:registry:oneOf] (result1 == nil) ==> result0 != nil
+
+//@ func Reader.ParseStream
+//@   props C04
+//@   requires r.Options != nil && r.sniffer != nil && f != nil
+//@   requires forall k formats.Format :: (k in unserializers) ==> unserializers[k] != nil
+//@   ensures [C04:parse:oneOf] (result1 == nil) != (result0 == nil)
+
+//@ func Reader.ParseFile
+//@   props C04
+//@   requires r.Options != nil && r.sniffer != nil
+//@   requires forall k formats.Format :: (k in unserializers) ==> unserializers[k] != nil
+//@   ensures [C04:parse:oneOf] (result1 == nil) != (result0 == nil)
+
+//@ func Reader.ParseFileWithOptions
+//@   props C04
+//@   requires r.Options != nil && r.sniffer != nil
+//@   requires forall k formats.Format :: (k in unserializers) ==> unserializers[k] != nil
+//@   ensures [C04:parse:oneOf] (result1 == nil) != (result0 == nil)
+
+// ---------------------------------------------------------------------------
+// C17: lock discipline of the package-level variables
+// ---------------------------------------------------------------------------
+//@ global regMtx trusted-concurrent
+//@ global unserializers guarded_by regMtx
+//@ global defaultUnserializeOptions immutable-after-init
+//@ global defaultOptions immutable-after-init
+//@ package-props C17
+
+//@ type ReaderOption(r *Reader)
+//@   requires r != nil && r.Options != nil
+//@   assigns r.sniffer, r.Storage, r.Options.*, (r.Options.formatOptions)[*]
+//@   ensures [C18:option:map] r.Options.formatOptions == old(r.Options.formatOptions) || fresh(r.Options.formatOptions)
+
+//@ func WithFormatOptions$1
+//@   props C18
+//@   requires r != nil && r.Options != nil
+//@   assigns r.sniffer, r.Storage, r.Options.*, (r.Options.formatOptions)[*]
+//@   ensures [C18:option:map] r.Options.formatOptions == old(r.Options.formatOptions) || fresh(r.Options.formatOptions)
+//@ func WithUnserializeOptions$1
+//@   props C18
+//@   requires r != nil && r.Options != nil
+//@   assigns r.sniffer, r.Storage, r.Options.*, (r.Options.formatOptions)[*]
+//@   ensures [C18:option:map] r.Options.formatOptions == old(r.Options.formatOptions) || fresh(r.Options.formatOptions)
+//@ func WithSniffer$1
+//@   props C18
+//@   requires r != nil && r.Options != nil
+//@   assigns r.sniffer, r.Storage, r.Options.*, (r.Options.formatOptions)[*]
+//@   ensures [C18:option:map] r.Options.formatOptions == old(r.Options.formatOptions) || fresh(r.Options.formatOptions)
+//@ func WithStoreRetriever$1
+//@   props C18
+//@   requires r != nil && r.Options != nil
+//@   assigns r.sniffer, r.Storage, r.Options.*, (r.Options.formatOptions)[*]
+//@   ensures [C18:option:map] r.Options.formatOptions == old(r.Options.formatOptions) || fresh(r.Options.formatOptions)
+//@ func WithRetrieveOptions$1
+//@   props C18
+//@   requires r != nil && r.Options != nil
+//@   assigns r.sniffer, r.Storage, r.Options.*, (r.Options.formatOptions)[*]
+//@   ensures [C18:option:map] r.Options.formatOptions == old(r.Options.formatOptions) || fresh(r.Options.formatOptions)
+
+//@ func New
+//@   props C18
+//@   requires defaultOptions != nil
+//@   assigns \nothing
+//@   ensures [C18:new:freshInstance] result != nil && fresh(result) && result.Options != nil && fresh(result.Options)
+//@   ensures [C18:new:freshStorage] len(opts) == 0 && typeis(result.Storage, *storage.FileSystem) ==> fresh(as(result.Storage, *storage.FileSystem))
+//@   invariant L0: len(opts) == 0 && typeis(r.Storage, *storage.FileSystem) ==> fresh(as(r.Storage, *storage.FileSystem))
